@@ -11,6 +11,10 @@ var regionEntries = map[string][]string{
 		"consensus.(*electionManager).*", "consensus.(*electionAlgorithm).*", "consensus.(*points).*", "consensus.(*consensus).VerifyMomentumProducer", "consensus.(*consensus).GetMomentumProducer",
 		"chain/genesis.NewGenesis", "common/db.PatchHash",
 	},
+	// acceptance side only: what decides whether somebody else's block or momentum is valid and what state it produces
+	"ACCEPT": {
+		"vm.(*Supervisor).ApplyBlock", "vm.(*Supervisor).ApplyMomentum", "chain/momentum.(*momentumStore).AddAccountBlockTransaction", "common/db.PatchHash",
+	},
 	"PRODUCER": {"vm.(*Supervisor).GenerateAutoReceive"},
 	"ELECTION": {
 		"consensus.(*electionManager).*", "consensus.(*electionAlgorithm).*", "consensus.(*consensus).VerifyMomentumProducer", "consensus.(*consensus).GetMomentumProducer",
